@@ -13,6 +13,36 @@ import (
 	"github.com/cloudflare/circl/simd/keccakf1600"
 )
 
+const permCanary = 0xC0DEC0DEC0DEC0DE
+
+// setCanaries fills every word of backing that is neither part of the
+// permutation state a[off:off+nState] nor one of the struct's two bookkeeping
+// words (offset, turbo - right after the nA-word array) with a canary.
+func setCanaries(backing []uint64, idx, nA, off, nState int) []int {
+	var ix []int
+	for k := range backing {
+		rel := k - idx
+		if rel >= off && rel < off+nState {
+			continue
+		}
+		if rel == nA || rel == nA+1 {
+			continue
+		}
+		backing[k] = permCanary
+		ix = append(ix, k)
+	}
+	return ix
+}
+
+func canariesIntact(backing []uint64, ix []int) bool {
+	for _, k := range ix {
+		if backing[k] != permCanary {
+			return false
+		}
+	}
+	return true
+}
+
 // structured lane values for permutation states
 func permLane(r *lib.Rng, mode int) uint64 {
 	switch mode {
@@ -41,13 +71,13 @@ func TestVerifPermute(t *testing.T) {
 	lib.Mandatory("permute:x4", "permute:x2", "permute:scalar", "permute:x4:turbo", "permute:x4:full",
 		"permute:x4:align=0", "permute:x4:align=1", "permute:x4:align=2", "permute:x4:align=3",
 		"permute:x2:align=0", "permute:x2:align=1", "permute:x2:align=2", "permute:x2:align=3",
-		"permute:x4:single-lane-differs", "permute:x4:repeated")
+		"permute:x4:single-lane-differs", "permute:x4:repeated", "permute:x4:canaries-set")
 	if simd {
 		lib.Mandatory("permute:x4:avx2")
 	} else {
 		lib.Mandatory("permute:x4:scalar-fallback")
 	}
-	n := lib.Scale(6000, 400000)
+	n := scale(20000, 400000)
 	lib.Par(n, func(i int) {
 		r := lib.NewRng("c15/permute", i)
 		turbo := i%2 == 0
@@ -97,6 +127,12 @@ func TestVerifPermute(t *testing.T) {
 			if uintptr(unsafe.Pointer(&a[0]))&31 != 0 {
 				lib.Count("permute:x4:buffer-not-32-byte-aligned")
 			}
+			off4 := int((uintptr(unsafe.Pointer(&a[0])) - uintptr(unsafe.Pointer(&backing[idx]))) / 8)
+			var can4 []int
+			if unsafe.Sizeof(*st) == 8*(103+2) {
+				can4 = setCanaries(backing, idx, 103, off4, 100)
+				lib.Count("permute:x4:canaries-set")
+			}
 			var lanes [4][25]uint64
 			odd := r.Intn(4)
 			for l := 0; l < 4; l++ {
@@ -142,6 +178,9 @@ func TestVerifPermute(t *testing.T) {
 				lib.Violation("C15:panic:keccakf1600.StateX4.Permute", mon, lib.D("align", align, "turbo", turbo, "panic", p.Value))
 				return
 			}
+			if !canariesIntact(backing, can4) || (can4 != nil && backing[idx+103] != uint64(off4)) {
+				lib.Violation("C15:out-of-bounds-write:keccakf1600.StateX4.Permute", mon, lib.D("align", align, "turbo", turbo))
+			}
 			for l := 0; l < 4; l++ {
 				for k := 0; k < reps; k++ {
 					keccak.KeccakP(&lanes[l], nr)
@@ -173,6 +212,11 @@ func TestVerifPermute(t *testing.T) {
 				lib.Violation("C15:panic:keccakf1600.StateX2.Initialize", mon, lib.D("align", align))
 				return
 			}
+			off2 := int((uintptr(unsafe.Pointer(&a[0])) - uintptr(unsafe.Pointer(&backing[idx]))) / 8)
+			var can2 []int
+			if unsafe.Sizeof(*st) == 8*(53+2) {
+				can2 = setCanaries(backing, idx, 53, off2, 50)
+			}
 			var lanes [2][25]uint64
 			odd := r.Intn(2)
 			for l := 0; l < 2; l++ {
@@ -200,6 +244,9 @@ func TestVerifPermute(t *testing.T) {
 			if p != nil {
 				lib.Violation("C15:panic:keccakf1600.StateX2.Permute", mon, lib.D("align", align, "turbo", turbo, "panic", p.Value))
 				return
+			}
+			if !canariesIntact(backing, can2) || (can2 != nil && backing[idx+53] != uint64(off2)) {
+				lib.Violation("C15:out-of-bounds-write:keccakf1600.StateX2.Permute", mon, lib.D("align", align, "turbo", turbo))
 			}
 			for l := 0; l < 2; l++ {
 				for k := 0; k < reps; k++ {
